@@ -194,7 +194,7 @@ def bounds(tier):
 
 
 def required_guards(tier):
-    return ['height>=3', 'weird_reads', 'weird_writes', 'weird_values', 'pickles_compared',
+    return ['height>=3', 'weird_reads', 'weird_writes', 'weird_values', 'pickles_compared', 'failing_iterables',
             'union', 'weightedIntersection', 'multiunion']
 
 
@@ -291,7 +291,20 @@ def alphabet(ctx, keys, grid, vals):
         reads += [('rkeysx', None, k, False, True), ('rkeysx', k, None, True, False),
                   ('rkeysx', None, k, False, False), ('maxKey', k), ('minKey', k)]
     reads += [('rkeysx', None, None, True, True), ('rkeysx', gap[0], gap[-1], True, True)]
-    return ops, reads, writes, vwrites
+    # arguments whose own iteration fails (IterFault after some items), or that cannot be iterated at
+    # all: the caller must get that exception (class compared), and both implementations must have
+    # applied the same part of the argument
+    iters = []
+    if ctx.is_map:
+        pairs = tuple((k, vals[i % 2]) for i, k in enumerate((knew, k0)))
+        iters += [('update', 'raising', pairs), ('update', 'raising', ()), ('update', 'noniter', ()),
+                  ('update', 'genpairs', pairs)]
+    else:
+        two = (knew, k0)
+        for name in ('update', 'ior', 'iand', 'isub', 'ixor'):
+            iters += [(name, 'raising', two), (name, 'raising', ())]
+        iters += [('update', 'noniter', ()), ('ior', 'noniter', ())]
+    return ops, reads, writes, vwrites, iters
 
 
 def key_arg(op):
@@ -375,9 +388,10 @@ def job(fam, kind, sizes, n, variant):
     if sizes:
         F.set_sizes(fam, *sizes)
     tree = cc.is_tree
-    normal, reads, writes, vwrites = alphabet(cc, keys, grid, vals)
+    normal, reads, writes, vwrites, iters = alphabet(cc, keys, grid, vals)
     allops = ([(o, 'normal') for o in normal] + [(o, 'read') for o in reads] +
-              [(o, 'write') for o in writes] + [(o, 'vwrite') for o in vwrites])
+              [(o, 'write') for o in writes] + [(o, 'vwrite') for o in vwrites] +
+              [(o, 'iter') for o in iters])
     guards = collections.Counter()
     outcomes = collections.Counter()
     violations = []
@@ -453,6 +467,9 @@ def job(fam, kind, sizes, n, variant):
                 arg = value_arg(op)
                 argcat = category(fam[1], arg)
                 guards['weird_values'] += 1
+            elif klass == 'iter':
+                argcat = op[1]
+                guards['failing_iterables'] += 1
             if not same(op, ra, rb):
                 report(hist, op, op[0], 'result', 'op %r: C %r, Py %r' % (op, ra, rb),
                        argcat=argcat, klass=klass, c_out=ra[1] if ra[0] == 'exc' else 'ok',
